@@ -1,6 +1,7 @@
 import J5V.Go.Hex
 import J5V.Schema.Wire
 import J5V.Schema.ReaderWire
+import J5V.Schema.PropSet
 /-!
 Line-protocol driver of the schema cluster (core only). One op per input line, one result per
 output line; see /verif/harness/PROTOCOL-schema.md.
@@ -43,7 +44,12 @@ def cacheLoop (ds : DescSet) : Reg → List String → List String
     | none => ["?:panic"]
     | some m =>
       let (res, reg') := cacheSchema ds reg m
-      (Wire.encStr m.split ++ ":" ++ cls res) :: cacheLoop ds reg' rest
+      -- Reflector.NewRoot on the same cache: the schema error, or the property-set checks
+      let root := match res with
+        | .ok _ => cls (newRoot ds reg' m)
+        | .err _ => "err"
+        | .panic _ => "panic"
+      (Wire.encStr m.split ++ ":" ++ cls res ++ ":" ++ root) :: cacheLoop ds reg' rest
 
 def stepReflect (toks : List String) : String :=
   match toks with
